@@ -6,8 +6,11 @@
    - [wf_forest f root] : the part of f below root is a finite tree and the
                           forest is tidy: all ids in use are < fnext, child lists
                           have no duplicates, a node has at most one parent, the
-                          root has none and is an element, comments have neither
-                          children nor attributes, attribute keys are distinct.
+                          root has none, is an element and has no tail (the tail
+                          of the root lies outside the document; the documented
+                          UpdateTextAfter is not applicable to the root), comments
+                          have neither children nor attributes, attribute keys
+                          are distinct.
                           (Everything is stated for ids < fnext: the total maps
                           of a forest are unconstrained above fnext, and [alloc]
                           resets the slot it takes.)
@@ -35,6 +38,7 @@ Record wf_forest (f : forest) (root : id) : Prop := {
                In c (fkids f p) -> In c (fkids f q) -> p = q;
   wf_root_top : forall p, p < fnext f -> ~ In root (fkids f p);
   wf_root_elem : is_comment (ltag (flab f root)) = false;
+  wf_root_tail : ltail (flab f root) = None;
   wf_comment : forall n, n < fnext f -> is_comment (ltag (flab f n)) = true ->
                fkids f n = [] /\ lattrs (flab f n) = [];
   wf_attrs : forall n, n < fnext f -> NoDup (map fst (lattrs (flab f n)))
@@ -80,6 +84,7 @@ Definition wf_forestb (f : forest) (root : id) : bool :=
   && nodupb Nat.eqb (all_kids f)
   && negb (mem root (all_kids f))
   && negb (is_comment (ltag (flab f root)))
+  && match ltail (flab f root) with None => true | Some _ => false end
   && forallb (label_okb f) (seq 0 (fnext f)).
 
 Definition valid_matchingb (L R : forest) (rootL rootR : id) (m : list (id * id)) : bool :=
@@ -186,7 +191,7 @@ Lemma wf_forestb_sound f root : wf_forestb f root = true -> wf_forest f root.
 Proof.
   unfold wf_forestb. intros H.
   repeat (apply andb_true_iff in H as [H ?]).
-  rename H into Hroot, H4 into Hlt, H3 into Hnd, H2 into Htop, H1 into Helem, H0 into Hlab.
+  rename H into Hroot, H5 into Hlt, H4 into Hnd, H3 into Htop, H2 into Helem, H1 into Htail, H0 into Hlab.
   apply Nat.ltb_lt in Hroot.
   rewrite forallb_forall in Hlt.
   apply (nodupb_sound Nat.eqb) in Hnd; [|intros a b ->; apply Nat.eqb_refl].
@@ -204,6 +209,7 @@ Proof.
   - intros p q c Hp Hq Hcp Hcq. eapply Hnd2; eauto. apply seq_NoDup.
   - intros p Hp Hin. apply Htop. eapply Hall; eauto.
   - exact Helem.
+  - destruct (ltail (flab f root)); [discriminate|reflexivity].
   - intros n Hn Hc. specialize (Hlab n (Hseq n Hn)). unfold label_okb in Hlab.
     apply andb_true_iff in Hlab as [Hl _]. rewrite Hc in Hl. cbn in Hl.
     apply andb_true_iff in Hl as [H1 H2].
